@@ -189,6 +189,7 @@ class Oracle:
 
         self.L = L
         self.db = L.Db()
+        self.float_reassoc = 0
 
     def close(self):
         self.db.close()
@@ -235,6 +236,11 @@ class Oracle:
             return None
         if L.same_rows(got, ref):
             return None
+        nf = L.Neutral("F")
+        if self.holds(u, nf) and nf.hits:
+            # the only difference is the re-association of floating point + / *
+            self.float_reassoc += 1
+            return None
         d = L.first_diff(got, ref)
         detail = {
             "rendered_sql": L.compile_literal(e, "sqlite"),
@@ -279,6 +285,10 @@ def run(ctx, deep=False):
         "backend lexers / bracket matching (the model starts from tokens); PostgreSQL and MySQL binding-power tables are from documentation, not validated",
         "harness/lib_expr.py ref_sql: the meaning assigned to each API call (e.g. String + String is concatenation, == NULL is IS NULL)",
     ]
+    ctx.assumptions.append(
+        "floating point + and * are treated as associative: a value difference that disappears when the flattened "
+        "float chain is kept nested is counted (bucket oracle=float-reassociation-only) but not reported"
+    )
     orc = Oracle()
     cases, impl_out, reqs = [], [], []
     gcases, greqs = [], []
@@ -305,10 +315,14 @@ def run(ctx, deep=False):
             if L.same_rows(got, ref):
                 ctx.count("oracle=both-error" if isinstance(got, str) else "oracle=agree")
             else:
-                key, detail = orc.check(u)
-                ctx.count("oracle=" + key)
-                nviol += 1
-                ctx.violation(key, {"u": u}, detail)
+                r = orc.check(u)
+                if r is None:
+                    ctx.count("oracle=float-reassociation-only(not reported)")
+                else:
+                    key, detail = r
+                    ctx.count("oracle=" + key)
+                    nviol += 1
+                    ctx.violation(key, {"u": u}, detail)
             if len(ctx.samples) < 4 and src == "random" and nops >= 4 and not isinstance(got, str):
                 ctx.sample({"tree": u, "sqlite_text": L.compile_literal(e, "sqlite"), "reference": L.ref_sql(u), "rows": got[:5]})
         # ---- correspondence: rendering on every dialect
